@@ -71,7 +71,7 @@ def Mon.step (m : Mon) (line : String) (out : String) : Mon × Option String :=
   | ["pr", _, _, _] => (m, none)
   | ["txt", _, _] =>
     match words out with
-    | [a, b] =>
+    | a :: b :: _ =>
       let a := normPath (a.drop 2).toString
       let b := normPath (b.drop 2).toString
       if a == b then (m, none)
